@@ -27,6 +27,10 @@ rule("C09.j", "a key that contains another object's name is composed where it is
               "store a string built from the name of an asset it refers to - the mapping is written from the current names at every set-up, a "
               "snapshot taken at construction goes stale when the objects are renamed (an injective renaming of the same objects)", floor=0)
 
+rule("C09.k", "a name is data, never code: asset / node names are compared as values - they are not interpolated into a string that is then "
+              "parsed (DataFrame.query / eval, a regular expression, str.contains with regex): quotes, backslashes and operators in a name would be "
+              "interpreted", floor=0)
+
 NAME_COLUMNS = ("asset", "node", "var_name", "internal_asset")
 DIGIT_COLUMNS = ("index_assets", "time_step", "index")
 SUBSTRING_METHODS = {"contains", "startswith", "endswith", "find", "rfind", "split", "rsplit", "partition",
@@ -217,7 +221,7 @@ def _sink(p, fn, node):
     return "other", None
 
 
-@analysis("keys", ["C07.a", "C07.b", "C09.a", "C09.b", "C09.d", "C09.e", "C09.i", "C09.j"])
+@analysis("keys", ["C07.a", "C07.b", "C09.a", "C09.b", "C09.d", "C09.e", "C09.i", "C09.j", "C09.k"])
 def run(ctx):
     p = ctx.p
     # ------------------------------------------------------------------ C09.i names are stored as given
@@ -249,6 +253,31 @@ def run(ctx):
                    "separate markets are merged silently (optimum -783 instead of -1309 after renaming the nodes)" % why, node=st,
                    ok_detail="name or str(name)")
     ctx.require(n_i >= 2, "fewer than 2 constructors that store a name found", rules=["C09.i"])
+    # ------------------------------------------------------------------ C09.k names inside parsed strings
+    PARSERS = ("query", "eval", "compile", "match", "fullmatch", "search", "sub", "findall", "contains")
+    n_k = 0
+    for fnk in sorted(p.all_functions(), key=lambda f: f.qualname):
+        for st in au.walk_stmts(fnk.body):
+            for c in au.walk_own(st):
+                if not (isinstance(c, ast.Call) and au.method_name(c) in PARSERS and c.args):
+                    continue
+                a0 = ctx.resolve(fnk, c.args[0], st)
+                pieces = []
+                if isinstance(a0, ast.JoinedStr):
+                    pieces = [v.value for v in a0.values if isinstance(v, ast.FormattedValue)]
+                elif isinstance(a0, ast.BinOp) and isinstance(a0.op, (ast.Add, ast.Mod)):
+                    pieces = [x for x in au.walk_local(a0) if not isinstance(x, ast.Constant)]
+                elif isinstance(a0, ast.Call) and au.method_name(a0) == "format":
+                    pieces = list(a0.args) + [k.value for k in a0.keywords]
+                named = [x for x in pieces if any(_is_name_expr(y) for y in au.walk_local(x))]
+                if named:
+                    n_k += 1
+                    ctx.ob("C09.k", fnk, au.short(c, 80), False,
+                           "the name %s is pasted into a string that %s() parses as an expression: a name containing a quote ends the literal (TokenError), "
+                           "a backslash followed by a letter is read as an escape sequence - the selection silently matches nothing and the dispatch of "
+                           "that asset is reported as zero, while value and cash flows are unchanged" % (au.short(named[0], 30), au.method_name(c)), node=c)
+    if n_k == 0:
+        ctx.ob("C09.k", "package", "names in parsed strings", True, ok_detail="no name is interpolated into a query / eval / regular expression")
     # ------------------------------------------------------------------ C09.j no snapshots of other objects' names
     n_j = 0
     for ci in sorted(p.classes.values(), key=lambda c: c.name):
